@@ -341,6 +341,36 @@ def run_case(case):
             for wa in range(s, s + min(l, 1024)):
                 if dev.mem.read_word(wa) != refm.peek(wa):
                     return Violation('c15:final-memory-differs', {'word': wa, 'got': dev.mem.read_word(wa), 'expected': refm.peek(wa)}, cl)
+    # ---- the same handler object drives a second run of the same image (a debugger front-end re-running the program):
+    # the breakpoints it was built with still hold.  Only when the first session left no step / skip pending
+    # (next_break is an absolute op count that the handler keeps).
+    if route == 'direct' and quit_at is None and next_break is None and bps:
+        first_hit = next((t2 for t2, ip2 in enumerate(ref.ips[:n_exec]) if ip2 in bps), None)
+        it2 = iter(['q'])
+
+        def fake_input2(prompt=''):
+            try:
+                return next(it2)
+            except StopIteration:
+                raise EOFError()
+        dev2 = engines.make_rec_device(case['input_bits'])
+        buf2 = io.StringIO()
+        builtins.input = fake_input2
+        try:
+            with contextlib.redirect_stdout(buf2), engines.hang_guard(60):
+                ts2 = fjm_run.run(path, io_device=dev2, breakpoint_handler=handler)
+        except BaseException as e:  # noqa
+            if isinstance(e, (SystemExit, MemoryError)):
+                raise
+            return Violation('c15:second-run-with-the-same-handler:exception:' + type(e).__name__, {'exc': repr(e)[:300]}, cl)
+        finally:
+            builtins.input = old_input
+        got2 = (ts2.termination_cause.name, ts2.op_counter)
+        want2 = ('KeyboardInterrupt', first_hit) if first_hit is not None else (ref.cause, ref.ops)
+        if got2 != want2:
+            return Violation('c15:second-run-with-the-same-handler', {'got': list(got2), 'expected': list(want2), 'breakpoints': sorted(bps)[:8],
+                                                                    'first_session_script': lines[:30]}, cl)
+        cl.append('handler re-used for a second run')
     npauses = sum(1 for e in exp if e[0] == 'pause')
     nreads = sum(1 for e in exp if e[0] == 'read')
     for e in exp:
